@@ -22,7 +22,7 @@ RULE = ('four streams. re: every string of <= 5 (thorough: 6) tokens over {" ", 
         '"-- #include a.lua"), targets of the three kinds (.lua, .p8, .p8.png written by the real writer) in the cart '
         'directory and two levels of sub-directories, with and without final newline, empty, with tab separators at '
         'the edges, with include lines of their own; selectors 0..tabs+1; missing targets; host named absolutely or '
-        'relatively. Each load: process_includes(lines, filename) vs the extracted model on the same file-system view, and '
+        'relatively; some carts end inside their code section without a final newline. Each load: process_includes(lines, filename) vs the extracted model on the same file-system view, and '
         'the extracted Spec-only monitor holds_C20 on (cart code, directory content, file.from_file(cart).lua.to_lines()) '
         'and on the raw process_includes output. distinct+non-trivial = distinct (host lines, names) with >= 1 include line')
 CLAIM = dict(
@@ -289,7 +289,10 @@ def generate(tier, rng):
     names = all_names()
     for i in range(700 if quick else 12000):
         host, used = gen_host(rng, names)
-        yield {'kind': 'load', 'host': host, 'names': sorted(set(used)), 'mode': rng.choice(['abs', 'abs', 'rel', 'relc'])}
+        c = {'kind': 'load', 'host': host, 'names': sorted(set(used)), 'mode': rng.choice(['abs', 'abs', 'rel', 'relc'])}
+        if host and host[-1] and rng.random() < 0.08:
+            c['final_nl'] = False
+        yield c
 
 
 def corpus_cases():
@@ -314,6 +317,8 @@ def corpus_cases():
     yield {'kind': 'load', 'host': ['#include t10.p8:8', '#include t10.p8.png:10', '#include t10.p8:011', '#include t10.p8:12'],
            'names': ['t10.p8', 't10.p8.png'], 'mode': 'abs'}
     yield {'kind': 'load', 'host': ['#include ', 'x=1', '#include l0.lua:2', '#include a.txt', '#include l0.lua x'], 'names': ['l0.lua'], 'mode': 'abs'}
+    yield {'kind': 'load', 'host': ['x=1', '#include l1.lua', 'c=d'], 'names': ['l1.lua'], 'mode': 'abs', 'final_nl': False}
+    yield {'kind': 'load', 'host': ['x=1', '#include t5.p8:1'], 'names': ['t5.p8'], 'mode': 'abs', 'final_nl': False}
     yield {'kind': 'nofile', 'host': ['x=1', '#include l0.lua']}
     yield {'kind': 'nofile', 'host': ['x=1', 'y=2']}
 
@@ -362,7 +367,10 @@ def _run_impl(case):
         return obs
     host_path = os.path.join(S, 'c', 'host.p8')
     cwd, arg = {'abs': (S, host_path), 'rel': (S, 'c/host.p8'), 'relc': (os.path.join(S, 'c'), 'host.p8')}[case['mode']]
-    data = fsobs.p8_text(''.join(x + '\n' for x in case['host']).encode('latin-1'))
+    if case.get('final_nl', True):
+        data = fsobs.p8_text(''.join(x + '\n' for x in case['host']).encode('latin-1'))
+    else:       # the file ends inside its code section, without a final newline
+        data = fsobs.p8_text('\n'.join(case['host']).encode('latin-1'), tail=b'')
     fsobs.write_file(host_path, data)
     obs = {'S': S, 'cwd': cwd, 'arg': arg, 'home': os.path.join(S, 'home'), 'host_path': host_path}
     with fsobs.environment(cwd=cwd, home=obs['home']), fsobs.quiet():
@@ -452,7 +460,7 @@ def monitor_requests(case, obs):
     if case['kind'] in ('tab', 'flines'):
         return []
     # the cart's code as the harness wrote it (ASCII), not as the implementation's reader returned it
-    host = ''.join(x + '\n' for x in case['host']).encode('latin-1')
+    host = (''.join(x + '\n' for x in case['host']) if case.get('final_nl', True) else '\n'.join(case['host'])).encode('latin-1')
     fl = _mon_files(obs)
     r = ['holds %s %s %s' % (h(host), fl, h(b''.join(obs['pi'])) if 'pi' in obs else 'ERR')]
     # the loaded cart: when the splice itself succeeded (judged by the request above) but the spliced text is
